@@ -90,7 +90,7 @@ package bufimagemodify
 // With managed mode disabled nothing is called at all; otherwise no modifier ever sees a well-known-type file.
 //@ func modifyImage(image, config, modifyFuncs, options) (err)
 //@   property C18
-//@   modifies heap, ghost.cbCalls, ghost.cbArgs, ghost.cbArg0, ghost.cbArg1, ghost.cbArg2, ghost.sweepCount, ghost.fail
+//@   modifies heap, ghost.cbCalls, ghost.cbArgs, ghost.cbArg0, ghost.cbArg1, ghost.cbArg2, ghost.sweepCount, ghost.fail, ghost.wfail
 //@   ensures disabled-untouched: !config.Enabled() ==> err == nil && ghost.cbCalls == old(ghost.cbCalls) && ghost.cbArgs == old(ghost.cbArgs) && ghost.sweepCount == old(ghost.sweepCount)
 //@   ensures wkt-never-modified: forall x ref :: x in ghost.cbArg1 && !(x in old(ghost.cbArg1)) ==> (exists i int :: 0 <= i && i < len(image.Files()) && x == image.Files()[i] && !datawkt.Exists(image.Files()[i].Path()))
 //@   loop 0 invariant forall x ref :: x in ghost.cbArg1 && !(x in old(ghost.cbArg1)) ==> (exists i int :: 0 <= i && i < $i0 && x == image.Files()[i] && !datawkt.Exists(image.Files()[i].Path()))
